@@ -46,6 +46,8 @@ class Check(BaseCheck):
             elif k % 5 == 4:
                 v, t = gen.add_trailing_free(gen.rng_for(self.seed, "c11free", k), v, t, 1 + k % 2); name += "+trailing-free"
             yield dict(v=v, t=t, it=it, name=name, pres=c.get("pres"))
+        for c in gen.narrow_cases():
+            yield dict(v=c["v"], t=c["t"], it=1, name=c["name"], pres=c["pres"])
         # vertex arrays of integer dtype (voxel-grid meshes): midpoints are half-integers
         ov, ot = gen.octahedron()
         yield dict(v=np.round(ov * 3), t=ot, it=1, name="int-octahedron", vdtype="int32")
